@@ -242,3 +242,38 @@ def compute (o : FOpts) (labels : List Label) : List (List Placed) :=
   placeLayers o labels none (distribute o.toD labels)
 
 end Labella.Layout
+
+namespace Labella.Layout
+
+/-! ### the engine as a state machine (C06) -/
+
+structure Engine where
+  opts : FOpts
+  labels : List Label
+  /-- what `getLayers()` reports: `none` until a layout has been computed for the current labels -/
+  layers : Option (List (List Placed))
+
+inductive EOp where
+  | setOptions (upd : FOpts → FOpts)   -- `set_options(x)`: update some keys
+  | setNodes (ls : List Label)         -- `nodes(x)`; `nodes([])` is the getter and changes nothing
+  | compute
+
+def Engine.step (e : Engine) : EOp → Engine
+  | .setOptions upd => { e with opts := upd e.opts }
+  | .setNodes ls => if ls.isEmpty then e else { e with labels := ls, layers := none }
+  | .compute => { e with layers := some (compute e.opts e.labels) }
+
+def Engine.run (e : Engine) (ops : List EOp) : Engine := ops.foldl Engine.step e
+
+/-- label ids that occur as labels, layer by layer -/
+def labelIds (layers : List (List Ref)) : List Nat :=
+  layers.flatten.filterMap (fun r => match r with | .label i => some i | .stub _ _ => none)
+
+/-- (label id, level) of the stubs of one layer -/
+def stubsOf (layer : List Ref) : List (Nat × Nat) :=
+  layer.filterMap (fun r => match r with | .stub i lv => some (i, lv) | .label _ => none)
+
+def refWidth (labels : List Label) (stubWidth : Rat) (r : Ref) : Rat :=
+  if r.isStub then stubWidth else widthOf labels r.id
+
+end Labella.Layout
